@@ -163,7 +163,7 @@ func (c *c12cCase) gen(rng *kit.RNG) {
 				ops = append(ops, &c12cOp{Kind: "leave", G: g, Cid: id})
 			case x < 78: // duplicate leaves
 				ops = append(ops, &c12cOp{Kind: "leave", G: g, Cid: id}, &c12cOp{Kind: "leave", G: g, Cid: id})
-			case x < 90: // join racing a leave of the same id
+			case x < 90 || len(deleted) >= len(c.all)-1: // join racing a leave of the same id (also when the plan must keep its last stream)
 				ops = append(ops, join(g, id), &c12cOp{Kind: "leave", G: g, Cid: id})
 				if rng.Bool() {
 					ops = append(ops, join(g, id))
@@ -172,9 +172,23 @@ func (c *c12cCase) gen(rng *kit.RNG) {
 				s := c.all[rng.Intn(len(c.all))]
 				deleted[s] = true
 				ops = append(ops, &c12cOp{Kind: "delete", Stream: s})
-				if rng.Bool() {
-					j := join(g, id)
-					ops = append(ops, j)
+				// 1..4 joins (some of them naming the stream) race the deletion
+				for k, n := 0, rng.Range(1, 4); k < n; k++ {
+					jid := ids[rng.Intn(len(ids))]
+					key := fmt.Sprintf("%d/%s", g, jid)
+					if streamsOf[key] == nil && rng.Chance(3, 4) {
+						l := pickStreams()
+						has := false
+						for _, x := range l {
+							has = has || x == s
+						}
+						if !has {
+							l = append(l, s)
+							sort.Strings(l)
+						}
+						streamsOf[key] = l
+					}
+					ops = append(ops, join(g, jid))
 				}
 			}
 		}
@@ -525,7 +539,7 @@ func (c *c12cCase) judgeRound(ri int, ops []*c12cOp) {
 func TestVerifC12Concurrent(t *testing.T) {
 	rep := kit.NewReport("C12", "concurrent")
 	defer rep.Write()
-	rep.SetRule("seeded programs of 4..8 rounds on a running single-node server; a round = 1..3 elements issued CONCURRENTLY through apiServer.JoinConsumerGroup / LeaveConsumerGroup / DeleteStream (in-process gRPC handlers -> metadataAPI -> Raft): 2..6 duplicates of one join, single joins, leaves, duplicate leaves, a join racing a leave of the same consumer id, a stream deletion racing joins; 1..2 groups, 2..4 consumer ids, 1..3 streams with 1..7 partitions. After every round (all calls returned + Raft barrier): per (group, id) accepted joins/leaves must fit one serial order (m0+J-L in {0,1}); the membership and subscriptions derived from the ANSWERS are the ground truth for the C12 oracle on the server's group (exactly one current holder per partition of every subscribed stream, nothing outside subscriptions, assignedCount, single-stream balance) and on what FetchConsumerGroupAssignments serves to every member at the current epoch. non-trivial = >=2 requests for one (group, id) in a round with >=1 accepted, or a join racing the deletion of a stream it names; distinct = per-round (accepted/issued joins and leaves, prior membership) strings")
+	rep.SetRule("seeded programs of 4..8 rounds on a running single-node server; a round = 1..3 elements issued CONCURRENTLY through apiServer.JoinConsumerGroup / LeaveConsumerGroup / DeleteStream (in-process gRPC handlers -> metadataAPI -> Raft): 2..6 duplicates of one join, single joins, leaves, duplicate leaves, a join racing a leave of the same consumer id, a stream deletion racing 1..4 joins most of which name the stream; 1..2 groups, 2..4 consumer ids, 1..3 streams with 1..7 partitions. After every round (all calls returned + Raft barrier): per (group, id) accepted joins/leaves must fit one serial order (m0+J-L in {0,1}); the membership and subscriptions derived from the ANSWERS are the ground truth for the C12 oracle on the server's group (exactly one current holder per partition of every subscribed stream, nothing outside subscriptions, assignedCount, single-stream balance) and on what FetchConsumerGroupAssignments serves to every member at the current epoch. non-trivial = >=2 requests for one (group, id) in a round with >=1 accepted, or a join racing the deletion of a stream it names; distinct = per-round (accepted/issued joins and leaves, prior membership) strings")
 	rep.Assume("consumer and coordinator time-outs are one hour: members do not expire in this unit (expiry is covered on group objects); any answer other than OK / FailedPrecondition / NotFound makes the case inconclusive")
 	cl, srv, err := vfSingle("c12c", func(cfg *Config) {
 		cfg.Groups.ConsumerTimeout = time.Hour
@@ -536,7 +550,7 @@ func TestVerifC12Concurrent(t *testing.T) {
 		return
 	}
 	defer cl.Cleanup()
-	n := kit.Scale(48, 480)
+	n := kit.Scale(64, 640)
 	root := kit.NewRNG(kit.Mix(kit.Seed(), 0xC12C))
 	seeds := make([]uint64, n)
 	for i := range seeds {
